@@ -16,6 +16,7 @@ import (
 	"context"
 	"encoding/base64"
 	"encoding/json"
+	"errors"
 	"fmt"
 	"net/url"
 	"slices"
@@ -43,6 +44,8 @@ const (
 
 var scopeSets = []string{"openid profile", "profile offline_access"}
 
+var errInjected = errors.New("injected storage fault")
+
 // flow is what the actors and the reference automaton know about one device flow.
 type flow struct {
 	Client string
@@ -51,6 +54,7 @@ type flow struct {
 	ExpOff time.Duration // reference: instant (offset from Epoch) the code expires
 	By     string        // reference: approving user ("" = not approved)
 	Denied bool          // reference: user denied
+	Faulted bool         // reference: a poll of this flow met a storage fault (what later polls are owed is then open)
 }
 
 type S struct {
@@ -58,10 +62,11 @@ type S struct {
 	Off   time.Duration // fake clock (offset from engine.Epoch)
 	Flows []flow
 	Slow  int // slow polls so far (bounded, they move the clock)
+	Faults int // polls with an injected storage fault that fired so far (bounded per history)
 }
 
 func (s S) clone() S {
-	return S{St: s.St.Clone(), Off: s.Off, Flows: slices.Clone(s.Flows), Slow: s.Slow}
+	return S{St: s.St.Clone(), Off: s.Off, Flows: slices.Clone(s.Flows), Slow: s.Slow, Faults: s.Faults}
 }
 
 func remClass(exp, now time.Duration) string {
@@ -81,9 +86,9 @@ func remClass(exp, now time.Duration) string {
 // read them (they are judged inside the transition that creates them).
 func canon(s S) string {
 	var b strings.Builder
-	fmt.Fprintf(&b, "n=%d/%d/%d slow=%d;", len(s.Flows), len(s.St.Devices), len(s.St.UserCodes), s.Slow)
+	fmt.Fprintf(&b, "n=%d/%d/%d slow=%d faults=%d;", len(s.Flows), len(s.St.Devices), len(s.St.UserCodes), s.Slow, s.Faults)
 	for i, f := range s.Flows {
-		fmt.Fprintf(&b, "[%d %s|%s|by=%s|den=%v|rem=%s", i, f.Client, f.Scopes, f.By, f.Denied, remClass(f.ExpOff, s.Off))
+		fmt.Fprintf(&b, "[%d %s|%s|by=%s|den=%v|flt=%v|rem=%s", i, f.Client, f.Scopes, f.By, f.Denied, f.Faulted, remClass(f.ExpOff, s.Off))
 		if d, ok := s.St.Devices[f.DC]; ok {
 			fmt.Fprintf(&b, "|st=%s|%s|%v|%v|%s|%s|uc=%v", d.St.ClientID, strings.Join(d.St.Scopes, " "), d.St.Done, d.St.Denied, d.St.Subject,
 				remClass(d.St.Expires.Sub(engine.Epoch), s.Off), s.St.UserCodes[f.UC] == f.DC)
@@ -103,18 +108,36 @@ type part struct {
 	users      []string
 	near, slow bool // thorough: advance to 1 s before expiry; really slow storage
 	extraWho   bool // thorough: wrong secret
+	chans      []string // parameter channels offered for device_authorization and poll
+	maxFaults  int      // injected storage faults per history
+	faultKinds []string // "err" (opaque storage error) | "deadline" (context.DeadlineExceeded)
+	journals   map[string][]string // storage calls of an approved poll, per "client|scopes" (fault positions)
 }
 
 func (p *part) rn() string { return rig.Routers[p.router] }
 
-func confidential(client string) bool { return client != "pub" }
+func confidential(client string) bool { return client != "pub" && client != "pub2" }
 
 func (p *part) newRig() *rig.Rig {
 	opc := rig.DefaultOPConfig()
 	opc.DeviceAuthorization.Lifetime = lifetime
 	// a user-code space large enough that two flows never collide by chance
 	opc.DeviceAuthorization.UserCode = op.UserCodeConfig{CharSet: op.CharSetBase20, CharAmount: 12, DashInterval: 4}
-	return rig.MustNew(rig.Opts{OP: opc})
+	return rig.MustNew(rig.Opts{OP: opc, Cfg: devConfig()})
+}
+
+func (p *part) channels() []string {
+	if len(p.chans) == 0 {
+		return []string{"b"}
+	}
+	return p.chans
+}
+
+func withChan(label, ch string) string {
+	if ch == "b" {
+		return label // the historical label: everything in the body
+	}
+	return label + ":" + ch
 }
 
 func (p *part) ops(s S) []string {
@@ -125,7 +148,9 @@ func (p *part) ops(s S) []string {
 				if i > 0 && (cl == "norefresh" || cl == "ghost" || cl == "web-nocred") {
 					continue
 				}
-				out = append(out, fmt.Sprintf("da:%s:%d", cl, i))
+				for _, ch := range p.channels() {
+					out = append(out, withChan(fmt.Sprintf("da:%s:%d", cl, i), ch))
+				}
 			}
 		}
 	}
@@ -168,14 +193,29 @@ func (p *part) ops(s S) []string {
 			}
 		}
 		for _, w := range whos {
-			out = append(out, fmt.Sprintf("poll:%d:%s", i, w))
+			for _, ch := range p.channels() {
+				out = append(out, withChan(fmt.Sprintf("poll:%d:%s", i, w), ch))
+			}
 		}
 		out = append(out, fmt.Sprintf("to:%d", i))
 		if p.slow && s.Slow < 1 {
 			out = append(out, fmt.Sprintf("slow:%d", i))
 		}
+		// one storage fault at every call position of an approved poll (whatever the flow's state:
+		// a position the request does not reach leaves it an ordinary poll)
+		if s.Faults < p.maxFaults {
+			seen := map[string]int{}
+			for _, m := range p.journals[f.Client+"|"+f.Scopes] {
+				seen[m]++
+				for _, kind := range p.faultKinds {
+					out = append(out, fmt.Sprintf("pf:%d:%s:%d:%s", i, m, seen[m], kind))
+				}
+			}
+		}
 	}
-	out = append(out, "poll:g:web", "poll:g:pub", "poll:e:web")
+	for _, ch := range p.channels() {
+		out = append(out, withChan("poll:g:web", ch), withChan("poll:g:pub", ch), withChan("poll:e:web", ch))
+	}
 	return out
 }
 
@@ -206,10 +246,8 @@ func secretOf(r *rig.Rig, client string) string {
 
 // authFor fills in how client identifies itself when it does it properly.
 func authFor(r *rig.Rig, client string, form url.Values) string {
-	if client == "jwt" { // private_key_jwt client: assertion signed now (fake clock) with its registered key
-		now := time.Now().Unix()
-		p, _ := json.Marshal(map[string]any{"iss": "jwt", "sub": "jwt", "aud": []string{rig.Issuer}, "iat": now - 10, "exp": now + 300})
-		form.Set("client_assertion", keys.SignCompact(keys.Get("p256b"), jose.ES256, "jk2", p))
+	if _, ok := assertionKeys[client]; ok { // private_key_jwt client: assertion signed now (fake clock) with its registered key
+		form.Set("client_assertion", assertion(client))
 		form.Set("client_assertion_type", "urn:ietf:params:oauth:client-assertion-type:jwt-bearer")
 		return ""
 	}
@@ -373,26 +411,35 @@ func checkTokens(r *rig.Rig, st *refstore.State, resp *rig.Resp, f flow, nTok in
 // ---------------------------------------------------------------------------
 // transitions
 
+// opChan splits an optional trailing channel off an operation label.
+func opChan(f []string) ([]string, string) {
+	if n := len(f); n > 0 && (f[n-1] == "gq" || f[n-1] == "q") {
+		return f[:n-1], f[n-1]
+	}
+	return f, "b"
+}
+
 func (p *part) exec(r *rig.Rig, s *S, opl string) engine.Result {
 	f := strings.Split(opl, ":")
 	rn := p.rn()
 	switch f[0] {
 	case "da":
-		return p.devAuth(r, s, f[1], scopeSets[atoi(f[2])])
+		f, ch := opChan(f)
+		return p.devAuth(r, s, f[1], scopeSets[atoi(f[2])], ch)
 	case "ap":
 		i := atoi(f[1])
 		if err := r.Core.ApproveDevice(s.Flows[i].UC, f[2]); err != nil {
 			return engine.Bad("approve", "error", "C16/user-code-unusable/"+rn+"/approve", "the user code of the response is not known to the storage: "+err.Error())
 		}
 		s.Flows[i].By = f[2]
-		return engine.OK("approve", "done")
+		return engine.OK("approve", orderClass(s.Flows[i], s.Off, "approved"))
 	case "dn":
 		i := atoi(f[1])
 		if err := r.Core.DenyDevice(s.Flows[i].UC); err != nil {
 			return engine.Bad("deny", "error", "C16/user-code-unusable/"+rn+"/deny", "the user code of the response is not known to the storage: "+err.Error())
 		}
 		s.Flows[i].Denied = true
-		return engine.OK("deny", "done")
+		return engine.OK("deny", orderClass(s.Flows[i], s.Off, "denied"))
 	case "adv":
 		s.Off += lifetime + time.Second
 		return engine.OK("advance", "past-lifetime")
@@ -406,19 +453,38 @@ func (p *part) exec(r *rig.Rig, s *S, opl string) engine.Result {
 		s.Off += min - time.Second
 		return engine.OK("advance", "one-second-before-expiry")
 	case "poll":
-		return p.poll(r, s, f[1], f[2], "")
+		f, ch := opChan(f)
+		return p.poll(r, s, f[1], f[2], "", ch)
 	case "to":
-		return p.poll(r, s, f[1], "init", "fault")
+		return p.poll(r, s, f[1], "init", "fault", "b")
 	case "slow":
-		return p.poll(r, s, f[1], "init", "slow")
+		return p.poll(r, s, f[1], "init", "slow", "b")
+	case "pf":
+		return p.poll(r, s, f[1], "init", strings.Join(f[2:], ":"), "b")
 	}
 	p.c.Internal("unknown op " + opl)
 	return engine.Result{Rule: "internal", Outcome: "?"}
 }
 
+// orderClass names the order in which the user's actions and the expiry met (evidence
+// that every order the storage allows is walked: approve/deny, deny/approve, expire/approve, ...).
+func orderClass(f flow, now time.Duration, what string) string {
+	o := what
+	if what == "approved" && f.Denied {
+		o += "-after-denial"
+	}
+	if what == "denied" && f.By != "" {
+		o += "-after-approval"
+	}
+	if now > f.ExpOff {
+		o += "-after-expiry"
+	}
+	return o
+}
+
 func atoi(s string) int { n, _ := strconv.Atoi(s); return n }
 
-func (p *part) devAuth(r *rig.Rig, s *S, who, scopes string) engine.Result {
+func (p *part) devAuth(r *rig.Rig, s *S, who, scopes, ch string) engine.Result {
 	rn := p.rn()
 	form := url.Values{"scope": {scopes}}
 	auth := ""
@@ -433,9 +499,10 @@ func (p *part) devAuth(r *rig.Rig, s *S, who, scopes string) engine.Result {
 		auth = authFor(r, who, form)
 	}
 	nDev := len(s.St.Devices)
-	resp := r.Do(p.router, rig.Req("POST", "/device_authorization", form, hdr(auth)))
+	resp := r.Do(p.router, wire("/device_authorization", form, auth, ch))
 	o := obs(resp)
 	served := o == "devauth"
+	cs := chanSuffix(ch)
 	switch who {
 	case "norefresh", "ghost":
 		rule, class := "da-client-without-device-grant", "nogrant"
@@ -443,28 +510,28 @@ func (p *part) devAuth(r *rig.Rig, s *S, who, scopes string) engine.Result {
 			rule, class = "da-unknown-client", "unknown"
 		}
 		if served || len(s.St.Devices) != nDev {
-			return engine.Bad(rule, o, "C16/devauth-served/"+rn+"/"+class,
+			return engine.Bad(rule+cs, o, "C16/devauth-served/"+rn+"/"+class+cs,
 				fmt.Sprintf("device authorization for %s was served (%d) / stored (%d new records): %s", who, resp.Status, len(s.St.Devices)-nDev, clip(resp.Body)))
 		}
-		return engine.OK(rule, o)
-	case "web-nocred":
-		// the statement says nothing about who may *start* a flow for a known client: Either
-		if !served {
-			if len(s.St.Devices) != nDev {
-				return engine.Bad("da-unauthenticated-confidential", o, "C16/devauth-stored-but-refused/"+rn+"/nocred", "refused request left a device record")
-			}
-			return engine.OK("da-unauthenticated-confidential", o)
-		}
+		return engine.OK(rule+cs, o)
 	}
 	kind := "public"
 	if confidential(client) {
 		kind = "confidential"
 	}
-	rule := "da-registered-" + kind
+	rule := "da-registered-" + kind + cs
 	if who == "web-nocred" {
-		rule = "da-unauthenticated-confidential"
+		rule = "da-unauthenticated-confidential" + cs
 	}
 	if !served {
+		// the statement says nothing about who may *start* a flow for a known client without credentials,
+		// nor obliges the provider to read parameters from the URL query: Either
+		if who == "web-nocred" || ch != "b" {
+			if len(s.St.Devices) != nDev {
+				return engine.Bad(rule, o, "C16/devauth-stored-but-refused/"+rn+"/"+strings.TrimPrefix(cs+"/nocred", "/"), "refused request left a device record")
+			}
+			return engine.OK(rule, o)
+		}
 		return engine.Bad(rule, o, "C16/devauth-refused/"+rn+"/"+kind,
 			fmt.Sprintf("device authorization of %s (registered for the device grant) was refused: %d %s", client, resp.Status, clip(resp.Body)))
 	}
@@ -489,7 +556,12 @@ func (p *part) devAuth(r *rig.Rig, s *S, who, scopes string) engine.Result {
 	if !ok || len(s.St.Devices) != nDev+1 {
 		return bad("not-stored", fmt.Sprintf("device code of the response is not the stored one (%d new records)", len(s.St.Devices)-nDev))
 	}
-	if d.UserCode != uc || d.St.ClientID != client || strings.Join(d.St.Scopes, " ") != scopes {
+	stored := strings.Join(d.St.Scopes, " ")
+	if ch == "q" && stored == "" && d.UserCode == uc && d.St.ClientID == client {
+		// a provider that does not read the scope from the URL query started a flow without scopes: its business
+		scopes, o = "", o+"-scope-in-query-ignored"
+	}
+	if d.UserCode != uc || d.St.ClientID != client || stored != scopes {
 		return bad("stored-record", fmt.Sprintf("stored record client=%s scopes=%v user code match=%v; request client=%s scopes=%q", d.St.ClientID, d.St.Scopes, d.UserCode == uc, client, scopes))
 	}
 	exp := engine.Epoch.Add(s.Off + lifetime)
@@ -506,10 +578,12 @@ func (p *part) devAuth(r *rig.Rig, s *S, who, scopes string) engine.Result {
 // poll sends one device_code token request. code: flow index | "g" garbage |
 // "e" empty; who: init | other | claim | nocred | badsec | peer | web | pub;
 // storage: "" | "fault" (GetDeviceAuthorizatonState returns DeadlineExceeded) |
-// "slow" (the call takes 5 s of fake time, the handler's own deadline fires).
-func (p *part) poll(r *rig.Rig, s *S, code, who, storage string) engine.Result {
+// "slow" (the call takes 5 s of fake time, the handler's own deadline fires) |
+// "<Method>:<k>:<kind>" (the k-th call of Method fails: kind err = opaque storage
+// error, deadline = context.DeadlineExceeded); ch: parameter channel.
+func (p *part) poll(r *rig.Rig, s *S, code, who, storage, ch string) engine.Result {
 	rn := p.rn()
-	form := url.Values{"grant_type": {"urn:ietf:params:oauth:grant-type:device_code"}}
+	form := url.Values{"grant_type": {devGrant}}
 	auth := ""
 	var fl *flow
 	switch code {
@@ -543,7 +617,9 @@ func (p *part) poll(r *rig.Rig, s *S, code, who, storage string) engine.Result {
 			}
 		}
 	}
+	fired := false
 	switch storage {
+	case "":
 	case "fault":
 		r.Core.Fault = func(_ int, m string) error {
 			if m == "GetDeviceAuthorizatonState" {
@@ -558,85 +634,103 @@ func (p *part) poll(r *rig.Rig, s *S, code, who, storage string) engine.Result {
 			}
 			return nil
 		}
+	default:
+		fs := strings.Split(storage, ":")
+		method, k, seen := fs[0], atoi(fs[1]), 0
+		ferr := errInjected
+		if len(fs) > 2 && fs[2] == "deadline" {
+			ferr = context.DeadlineExceeded
+		}
+		r.Core.Fault = func(_ int, m string) error {
+			if m == method {
+				if seen++; seen == k {
+					fired = true
+					return ferr
+				}
+			}
+			return nil
+		}
 	}
 	nTok, nRef := len(s.St.Tokens), len(s.St.Refreshes)
-	resp := r.Token(p.router, form, auth)
+	resp := r.Do(p.router, wire("/oauth/token", form, auth, ch))
 	r.Core.Fault = nil
 	if storage == "slow" {
 		s.Off += slowBy
 		s.Slow++
 	}
-	o := obs(resp)
-	issued := tokensIssued(resp, s.St, nTok, nRef)
-
-	refuse := func(rule, sig, why string) engine.Result {
-		if issued {
-			return engine.Bad(rule, o, sig, fmt.Sprintf("%s, yet tokens were issued: %d %s", why, resp.Status, clip(resp.Body)))
-		}
-		if resp.Panic == "" && resp.Status < 400 {
-			return engine.Bad(rule, o, sig, fmt.Sprintf("%s, answer is not an error: %d %s", why, resp.Status, clip(resp.Body)))
-		}
-		return engine.OK(rule, o)
-	}
-	exact := func(rule, class, want string) engine.Result {
-		if issued {
-			return engine.Bad(rule, o, "C16/tokens-without-approval/"+rn+"/"+class,
-				fmt.Sprintf("device code is %s, yet tokens were issued: %d %s", class, resp.Status, clip(resp.Body)))
-		}
-		if o != "err:"+want && o != "panic" {
-			return engine.Bad(rule, o, "C16/wrong-answer/"+rn+"/"+class,
-				fmt.Sprintf("device code is %s: want error %s, got %d %s", class, want, resp.Status, clip(resp.Body)))
-		}
-		return engine.OK(rule, o)
-	}
+	ob := pollObs{resp: resp, o: obs(resp), nTok: nTok}
+	ob.issued = tokensIssued(resp, s.St, nTok, nRef)
+	o, issued := ob.o, ob.issued
+	cs := chanSuffix(ch)
 
 	if fl == nil {
 		class := "garbage"
 		if code == "e" {
 			class = "empty"
 		}
-		return refuse("poll-unknown-code", "C16/tokens-for-unknown-code/"+rn+"/"+class, "device code was never issued")
+		rule, sig := "poll-unknown-code"+cs, "C16/tokens-for-unknown-code/"+rn+"/"+class+cs
+		if issued {
+			return engine.Bad(rule, o, sig, fmt.Sprintf("device code was never issued, yet tokens were issued: %d %s", resp.Status, clip(resp.Body)))
+		}
+		if resp.Panic == "" && resp.Status < 400 {
+			return engine.Bad(rule, o, sig, fmt.Sprintf("device code was never issued, answer is not an error: %d %s", resp.Status, clip(resp.Body)))
+		}
+		return engine.OK(rule, o)
 	}
 	if who != "init" {
-		return refuse("poll-foreign-"+who, "C16/tokens-to-foreign-caller/"+rn+"/"+who,
-			fmt.Sprintf("caller (%s) is not the authenticated client %s that started the flow", who, fl.Client))
-	}
-	if storage != "" {
-		return exact("poll-storage-timeout-"+storage, "timeout-"+storage, "slow_down")
+		return judgeRefuse(rn, "poll-foreign-"+who+cs, who, ch, *fl, ob)
 	}
 	now := s.Off
 	switch {
-	case fl.Denied:
-		return exact("poll-denied", "denied", "access_denied")
-	case fl.By != "":
-		rule := "poll-approved"
-		if now >= fl.ExpOff {
-			rule = "poll-approved-expired" // DESIGN 1.6: Either, but issued tokens must still be right
+	case storage == "fault" || storage == "slow":
+		rule, class := "poll-storage-timeout-"+storage, "timeout-"+storage
+		if issued {
+			return engine.Bad(rule, o, "C16/tokens-without-approval/"+rn+"/"+class,
+				fmt.Sprintf("device code is %s, yet tokens were issued: %d %s", class, resp.Status, clip(resp.Body)))
 		}
-		if !strings.HasPrefix(o, "tokens") {
-			if rule == "poll-approved-expired" && !issued {
-				return engine.OK(rule, o)
-			}
-			kind := "public"
-			if confidential(fl.Client) {
-				kind = "confidential"
-			}
-			return engine.Bad(rule, o, "C16/approved-refused/"+rn+"/"+kind,
-				fmt.Sprintf("approved, live device code polled by its authenticated initiator %s: %d %s", fl.Client, resp.Status, clip(resp.Body)))
-		}
-		if aspect, detail := checkTokens(r, s.St, resp, *fl, nTok); aspect != "" {
-			return engine.Bad(rule, o, "C16/token-content/"+rn+"/"+aspect, detail)
+		if o != "err:slow_down" && o != "panic" {
+			return engine.Bad(rule, o, "C16/wrong-answer/"+rn+"/"+class,
+				fmt.Sprintf("device code is %s: want error slow_down, got %d %s", class, resp.Status, clip(resp.Body)))
 		}
 		return engine.OK(rule, o)
-	case now > fl.ExpOff:
-		return exact("poll-expired", "expired", "expired_token")
-	case now == fl.ExpOff: // exactly at the expiry instant: either answer
-		if issued {
-			return engine.Bad("poll-at-expiry", o, "C16/tokens-without-approval/"+rn+"/pending", "tokens without approval")
+	case storage != "" && fired:
+		// a storage call failed underneath the poll: an error answer is fine whatever its code and nothing
+		// is owed afterwards; a success counts as delivery and is judged like any other
+		s.Faults++
+		fl.Faulted = true
+		entitled := fl.By != "" && !fl.Denied
+		rule := "poll-storage-fault-not-approved"
+		if entitled {
+			rule = "poll-storage-fault-approved"
 		}
-		return engine.OK("poll-at-expiry", o)
+		if strings.HasPrefix(o, "tokens") && entitled {
+			if aspect, detail := checkTokens(r, s.St, resp, *fl, nTok); aspect != "" {
+				return engine.Bad(rule, o, "C16/token-content/"+rn+"/"+aspect, detail)
+			}
+			return engine.OK(rule, o)
+		}
+		if issued && !entitled {
+			class := "pending"
+			if fl.Denied {
+				class = "denied"
+			} else if now > fl.ExpOff {
+				class = "expired"
+			}
+			return engine.Bad(rule, o, "C16/tokens-without-approval/"+rn+"/"+class+"+storage-fault",
+				fmt.Sprintf("device code is %s and storage call %s failed, yet tokens were issued: %d %s", class, storage, resp.Status, clip(resp.Body)))
+		}
+		return engine.OK(rule, o)
 	}
-	return exact("poll-pending", "pending", "authorization_pending")
+	// ordinary poll by the initiator (also: a fault position the request did not reach)
+	strict := ch == "b" && !fl.Faulted
+	rule := "poll"
+	switch {
+	case ch != "b":
+		rule = "poll" + cs // parameters in the URL query: a refusal is Either, a success is judged like any other
+	case fl.Faulted:
+		rule = "poll-after-fault"
+	}
+	return judgeInitiator(r, s.St, rn, rule, strict, now, *fl, ob)
 }
 
 // ---------------------------------------------------------------------------
